@@ -81,6 +81,24 @@ CHECKS = {
              "argument order are compared with a reference arity table; both the action and the text->parser entry point.",
         note="Names are picks from a pool (live table, reference table, case variants, prefixes, extensions, fresh names) "
              "because the table lookup hashes the name; names outside the pool are argued (KeyError branch), not decided."),
+    "C05": dict(
+        level="model_checking", engine="chx", design="DESIGN.md section 4 C05",
+        technique="CrossHair (z3) case-split over symbolic operator assignments per tree skeleton; reference printer (spec "
+                  "precedence table only) -> real lexer/parser -> decoded AST compared with the printed tree",
+        text="Exhaustive bounded model checking of operator grouping: every skeleton of binary / unary / in nodes up to the "
+             "bound, every assignment of the 13 binary and 2 unary operators (symbolic indices; CrossHair certifies the case "
+             "split is complete), three parenthesisations (minimal, full, full+outer).",
+        note="Finite-domain symbolic execution: the text is concrete on each path, the solver contributes completeness of the "
+             "operator case split, not arithmetic insight; trusts the reference printer's transcription of OData 4.01 5.1.1.14."),
+    "C13": dict(
+        level="model_checking", engine="chx", design="DESIGN.md section 4 C13",
+        technique="CrossHair (z3) over AstToODataVisitor + real lexer/parser per skeleton with symbolic operators, plus leaf "
+                  "lemmas with symbolic string contents (render in token language; real token action == reference decoder)",
+        text="parse(render(t)) == t and render fixpoint for every skeleton up to the bound with all operator assignments and "
+             "for explicit shape families (all literal kinds, singleton/nested lists, namespaces, paths, lambdas, named "
+             "parameters, unary chains); arbitrary string contents through the render/decode leaf lemmas.",
+        note="Symbolic text cannot be lexed under CrossHair, so arbitrary string contents are covered by composing the leaf "
+             "lemmas with C06's Engine-A obligation that every member of the STRING language is one STRING token."),
 }
 
 NOT_YET = {}
@@ -154,6 +172,11 @@ SOURCE_COMMITS = [
     "beff0df fix: SQL dialects quote and escape literal LIKE patterns",
     "71d765e fix: SQL dialects render a duration without components as a zero interval",
     "7cccd2c fix: parsing a call with three or more named parameters no longer raises AttributeError",
+    "255f608 fix: roundtrip doubles single quotes inside string literals",
+    "caa24d8 fix: roundtrip renders single item lists with a trailing comma",
+    "775739e fix: roundtrip keeps parentheses around right operands of equal precedence",
+    "43553c4 fix: roundtrip supports named parameters and geography literals",
+    "606e76a fix: collection lambdas on paths of three or more segments parse instead of raising AttributeError",
 ]
 
 if __name__ == "__main__":
